@@ -312,6 +312,13 @@ fn add_stats(rep: &mut Report, s: &Stats) {
     rep.add("lsm.directory-checks-against-retention-model", s.retention_checks);
     rep.add("lsm.entries-dropped-by-compactions", s.entries_dropped);
     rep.add("lsm.potential-lowered-by-compactions", s.potential_drop);
+    rep.add("lsm.seek-charges-of-gets-checked-against-model", s.seek_gets_checked);
+    rep.add("lsm.seek-charges-of-read-samples-checked-against-model", s.seek_samples_checked);
+    rep.add("lsm.seek-charges-applied", s.seek_charges);
+    rep.add("lsm.seek-events-skipped-unknown-file", s.seek_events_skipped);
+    rep.add("lsm.seek-budgets-checked-against-model", s.seek_budgets_checked);
+    rep.add("lsm.dumps-with-a-recorded-seek-compaction", s.seek_compactions_recorded);
+    rep.add("lsm.seek-compactions-recorded-according-to-the-model", s.seek_compactions_by_model);
     rep.add("lsm.closes-during-a-table-compaction", s.closes_during_table_compaction);
     rep.add("lsm.writes-staged-while-a-table-compaction-is-parked", s.flushes_staged_inside_a_compaction);
     let bump = |rep: &mut Report, k: &str, v: u64| {
